@@ -5,6 +5,7 @@ import (
 	"go/constant"
 	"go/token"
 	"go/types"
+	"os"
 	"sort"
 	"strings"
 
@@ -802,4 +803,319 @@ func (rc *resolvedCall) Result() ssa.Value {
 		return rc.Via
 	}
 	return nil
+}
+
+// ---------------------------------------------------------------- returns fed by one exit (named results, `err`
+// assigned on the way and returned once)
+
+// retClassFrom: the function is left along the edge b -> b.Succs[si]; what is the error it returns (its last result)
+// on the paths from there to a return? "nil" / "nonnil" when that holds on every such path, else "unknown".
+// The result value is followed per path: through the phi of the return block (the value the path carries into it),
+// or, for a named result kept in a local slot, through the last store to the slot on the path; a value is judged by
+// nilness at the point it was produced, refined by the nil tests passed on the path (the edge itself included).
+func retClassFrom(b *ssa.BasicBlock, si int) string {
+	f := b.Parent()
+	type fact struct {
+		v      ssa.Value
+		nonnil bool
+	}
+	var facts []fact
+	addFact := func(v ssa.Value, nonnil bool) {
+		facts = append(facts, fact{v, nonnil})
+		// a test of a load of a local slot is a test of the value last stored there
+		if ld, ok := v.(*ssa.UnOp); ok && ld.Op == token.MUL {
+			if a, ok := ld.X.(*ssa.Alloc); ok {
+				if s := lastStoreBefore(a, ld); s != nil {
+					facts = append(facts, fact{s.Val, nonnil})
+				}
+			}
+		}
+	}
+	addEdgeFact := func(pb *ssa.BasicBlock, idx int) {
+		iff, ok := pb.Instrs[len(pb.Instrs)-1].(*ssa.If)
+		if !ok {
+			return
+		}
+		bo, ok := iff.Cond.(*ssa.BinOp)
+		if !ok || !isNilConst(bo.Y) || (bo.Op != token.EQL && bo.Op != token.NEQ) {
+			return
+		}
+		nonnil := (bo.Op == token.NEQ) == (idx == 0)
+		addFact(bo.X, nonnil)
+	}
+	for _, ec := range controlling(b) {
+		if bo, ok := ec.Cond.(*ssa.BinOp); ok && isNilConst(bo.Y) && (bo.Op == token.EQL || bo.Op == token.NEQ) {
+			addFact(bo.X, (bo.Op == token.NEQ) == ec.Pol)
+		}
+	}
+	addEdgeFact(b, si)
+	judge := func(v ssa.Value, at *ssa.BasicBlock) string {
+		for i := 0; i < 4; i++ {
+			for _, fc := range facts {
+				if fc.v == v {
+					if fc.nonnil {
+						return "nonnil"
+					}
+					return "nil"
+				}
+			}
+			// a load of the result slot stands for the value last stored there
+			if ld, ok := v.(*ssa.UnOp); ok && ld.Op == token.MUL {
+				if a, ok := ld.X.(*ssa.Alloc); ok {
+					// a test of another load of the same slot with no store in between is a fact about this one
+					for _, fc := range facts {
+						if l2, ok := fc.v.(*ssa.UnOp); ok && l2.Op == token.MUL && l2.X == ssa.Value(a) && lastStoreBefore(a, l2) == lastStoreBefore(a, ld) && lastStoreBefore(a, ld) != nil {
+							if fc.nonnil {
+								return "nonnil"
+							}
+							return "nil"
+						}
+					}
+					if s := lastStoreBefore(a, ld); s != nil {
+						v = s.Val
+						continue
+					}
+				}
+			}
+			break
+		}
+		n := nilness(v, at, 0)
+		if n == "nil" || n == "nonnil" {
+			return n
+		}
+		return "unknown"
+	}
+	res := ""
+	merge := func(c string) {
+		switch {
+		case res == "":
+			res = c
+		case res != c:
+			res = "unknown"
+		}
+	}
+	// the named-result slot, if the function returns through one
+	var slot *ssa.Alloc
+	for _, fb := range f.Blocks {
+		if ret, ok := fb.Instrs[len(fb.Instrs)-1].(*ssa.Return); ok && len(ret.Results) > 0 {
+			if ld, ok := ret.Results[len(ret.Results)-1].(*ssa.UnOp); ok && ld.Op == token.MUL {
+				if a, ok := ld.X.(*ssa.Alloc); ok {
+					slot = a
+				}
+			}
+		}
+	}
+	type item struct {
+		blk   *ssa.BasicBlock
+		from  *ssa.BasicBlock
+		carry ssa.Value // value of the slot on this path (nil: not written on the path so far)
+	}
+	var startCarry ssa.Value
+	startClass := "" // what a forward dataflow knows about the slot when the edge is taken and no store is in sight
+	if slot != nil {
+		// the value the slot holds when the edge is taken
+		last := b.Instrs[len(b.Instrs)-1]
+		if s := lastStoreBefore(slot, last); s != nil {
+			startCarry = s.Val
+		} else {
+			startClass = slotClassOnEdge(slot, b, si)
+		}
+	}
+	seen := map[*ssa.BasicBlock]int{}
+	work := []item{{b.Succs[si], b, startCarry}}
+	steps := 0
+	for len(work) > 0 && res != "unknown" {
+		it := work[len(work)-1]
+		work = work[:len(work)-1]
+		steps++
+		if seen[it.blk] > 1 || steps > 400 {
+			merge("unknown")
+			continue
+		}
+		seen[it.blk]++
+		carry := it.carry
+		for _, in := range it.blk.Instrs {
+			if s, ok := in.(*ssa.Store); ok && slot != nil && s.Addr == ssa.Value(slot) {
+				if ld, isL := s.Val.(*ssa.UnOp); isL && ld.Op == token.MUL && ld.X == ssa.Value(slot) {
+					continue // `return err` with a named result stores the slot back into itself
+				}
+				carry = s.Val
+			}
+		}
+		last := it.blk.Instrs[len(it.blk.Instrs)-1]
+		if ret, ok := last.(*ssa.Return); ok {
+			if len(ret.Results) == 0 {
+				merge("nil")
+				continue
+			}
+			rv := ret.Results[len(ret.Results)-1]
+			if ph, isP := rv.(*ssa.Phi); isP && ph.Block() == it.blk {
+				for i, p := range it.blk.Preds {
+					if p == it.from {
+						rv = ph.Edges[i]
+					}
+				}
+			} else if ld, isL := rv.(*ssa.UnOp); isL && ld.Op == token.MUL && slot != nil && ld.X == ssa.Value(slot) {
+				if carry != nil {
+					rv = carry
+				} else if startClass != "" {
+					merge(startClass)
+					continue
+				}
+			}
+			merge(judge(rv, it.blk))
+			continue
+		}
+		for _, sc := range it.blk.Succs {
+			work = append(work, item{sc, it.blk, carry})
+		}
+	}
+	if res == "" {
+		return "unknown"
+	}
+	return res
+}
+
+var errEdgeMemo = map[*ssa.BasicBlock][2]int8{}
+
+// errorEdge: leaving b by its successor si the function can only return a non-nil error (an `if err != nil` arm
+// that breaks out to a single exit returning err). Dataflows over the success paths do not follow such edges.
+func errorEdge(b *ssa.BasicBlock, si int) bool {
+	if si > 1 {
+		return false
+	}
+	iff, ok := b.Instrs[len(b.Instrs)-1].(*ssa.If)
+	if !ok {
+		return false
+	}
+	bo, ok := iff.Cond.(*ssa.BinOp)
+	if !ok || !isNilConst(bo.Y) || (bo.Op != token.EQL && bo.Op != token.NEQ) {
+		return false
+	}
+	sig := b.Parent().Signature.Results()
+	if sig.Len() == 0 {
+		return false
+	}
+	lt := sig.At(sig.Len() - 1).Type().String()
+	if !strings.HasSuffix(lt, "errchain.PlError") && lt != "error" {
+		return false
+	}
+	m := errEdgeMemo[b]
+	if m[si] == 0 {
+		m[si] = -1
+		cls := retClassFrom(b, si)
+		if cls == "nonnil" {
+			m[si] = 1
+		}
+		if os.Getenv("PLVERIF_DEBUG") == "erredge" {
+			fmt.Fprintf(os.Stderr, "ERREDGE %s block %d succ %d (%s): %s\n", b.Parent().Name(), b.Index, si, iff.Cond, cls)
+		}
+		errEdgeMemo[b] = m
+	}
+	return m[si] == 1
+}
+
+// slotClassOnEdge: a forward dataflow over the function for one local slot of pointer/interface type (a named error
+// result): on every path reaching the edge b -> succ si, is the slot nil, non-nil, or either? The slot starts nil;
+// a store sets it to the nilness of the stored value; a nil test of a load of the slot refines it on both arms.
+func slotClassOnEdge(slot *ssa.Alloc, b *ssa.BasicBlock, si int) string {
+	f := b.Parent()
+	isSlotLoad := func(v ssa.Value) bool {
+		ld, ok := v.(*ssa.UnOp)
+		return ok && ld.Op == token.MUL && ld.X == ssa.Value(slot)
+	}
+	ts := &typestate{fn: f, nstate: 3, init: 0} // 0 nil, 1 non-nil, 2 unknown
+	ts.trans = func(in ssa.Instruction, st int) int {
+		s, ok := in.(*ssa.Store)
+		if !ok || s.Addr != ssa.Value(slot) {
+			if _, isCall := in.(*ssa.Call); isCall && slotEscapes(slot) {
+				return 2
+			}
+			return st
+		}
+		if isSlotLoad(s.Val) {
+			return st
+		}
+		switch nilness(s.Val, s.Block(), 0) {
+		case "nil":
+			return 0
+		case "nonnil":
+			return 1
+		}
+		return 2
+	}
+	ts.edge = func(eb *ssa.BasicBlock, esi int, st int) int {
+		iff, ok := eb.Instrs[len(eb.Instrs)-1].(*ssa.If)
+		if !ok {
+			return st
+		}
+		bo, ok := iff.Cond.(*ssa.BinOp)
+		if !ok || !isNilConst(bo.Y) || (bo.Op != token.EQL && bo.Op != token.NEQ) || !isSlotLoad(bo.X) {
+			return st
+		}
+		// the load must see the slot as it is at the end of the block: no store between it and the branch
+		ld := bo.X.(*ssa.UnOp)
+		after := false
+		for _, in := range eb.Instrs {
+			if in == ssa.Instruction(ld) {
+				after = true
+				continue
+			}
+			if s, isS := in.(*ssa.Store); isS && after && s.Addr == ssa.Value(slot) {
+				return st
+			}
+		}
+		if ld.Block() != eb {
+			return st
+		}
+		nonnil := (bo.Op == token.NEQ) == (esi == 0)
+		if nonnil {
+			if st == 0 {
+				return -1
+			}
+			return 1
+		}
+		if st == 1 {
+			return -1
+		}
+		return 0
+	}
+	before := ts.run()
+	last := b.Instrs[len(b.Instrs)-1]
+	var out uint16
+	for st := 0; st < 3; st++ {
+		if before[last]&(1<<uint(st)) == 0 {
+			continue
+		}
+		n := ts.trans(last, st)
+		if n = ts.edge(b, si, n); n >= 0 {
+			out |= 1 << uint(n)
+		}
+	}
+	switch out {
+	case 1:
+		return "nil"
+	case 2:
+		return "nonnil"
+	}
+	return ""
+}
+
+// slotEscapes: the slot's address is handed to something other than loads and stores (a closure, a callee).
+func slotEscapes(slot *ssa.Alloc) bool {
+	if slot.Referrers() == nil {
+		return false
+	}
+	for _, r := range *slot.Referrers() {
+		switch x := r.(type) {
+		case *ssa.UnOp, *ssa.DebugRef:
+		case *ssa.Store:
+			if x.Addr != ssa.Value(slot) {
+				return true
+			}
+		default:
+			return true
+		}
+	}
+	return false
 }
